@@ -18,7 +18,9 @@ pub mod std {
         use ::std::panic::{catch_unwind, AssertUnwindSafe};
 
         pub use ::std::thread::Result;
-        pub use shuttle::thread::{current, park, scope, sleep, yield_now, Scope, ScopedJoinHandle, Thread, ThreadId};
+        pub use shuttle::thread::{
+            current, park, scope, sleep, yield_now, Scope, ScopedJoinHandle, Thread, ThreadId,
+        };
 
         /// shuttle's `park_timeout` never times out; model the timeout as elapsing at once
         /// (a legal spurious wake-up): a scheduling point that gives the other tasks a turn.
@@ -84,7 +86,10 @@ pub mod std {
         {
             crate::world::note_spawn();
             let finished = Arc::new(AtomicBool::new(false));
-            JoinHandle { inner: shuttle::thread::spawn(contain(f, finished.clone())), finished }
+            JoinHandle {
+                inner: shuttle::thread::spawn(contain(f, finished.clone())),
+                finished,
+            }
         }
 
         #[derive(Debug, Default)]
@@ -112,7 +117,8 @@ pub mod std {
                     b = b.name(n);
                 }
                 let finished = Arc::new(AtomicBool::new(false));
-                b.spawn(contain(f, finished.clone())).map(|inner| JoinHandle { inner, finished })
+                b.spawn(contain(f, finished.clone()))
+                    .map(|inner| JoinHandle { inner, finished })
             }
         }
     }
@@ -121,8 +127,8 @@ pub mod std {
         pub use ::std::sync::*;
 
         pub use shuttle::sync::{
-            Barrier, BarrierWaitResult, Condvar, Mutex, MutexGuard, Once, OnceState, RwLock, RwLockReadGuard,
-            RwLockWriteGuard, WaitTimeoutResult,
+            Barrier, BarrierWaitResult, Condvar, Mutex, MutexGuard, Once, OnceState, RwLock,
+            RwLockReadGuard, RwLockWriteGuard, WaitTimeoutResult,
         };
 
         pub mod mpsc {
@@ -132,7 +138,10 @@ pub mod std {
             //! points without a message arriving (a timer firing early is always legal).
             use ::std::time::{Duration, Instant};
 
-            pub use shuttle::sync::mpsc::{RecvError, RecvTimeoutError, SendError, Sender, SyncSender, TryRecvError, TrySendError};
+            pub use shuttle::sync::mpsc::{
+                RecvError, RecvTimeoutError, SendError, Sender, SyncSender, TryRecvError,
+                TrySendError,
+            };
 
             const PATIENCE: usize = 4;
 
@@ -160,7 +169,9 @@ pub mod std {
                     for _ in 0..PATIENCE {
                         match self.0.try_recv() {
                             Ok(v) => return Ok(v),
-                            Err(TryRecvError::Disconnected) => return Err(RecvTimeoutError::Disconnected),
+                            Err(TryRecvError::Disconnected) => {
+                                return Err(RecvTimeoutError::Disconnected)
+                            }
                             Err(TryRecvError::Empty) => shuttle::thread::yield_now(),
                         }
                     }
@@ -231,8 +242,8 @@ pub mod std {
             pub use ::std::sync::atomic::*;
 
             pub use shuttle::sync::atomic::{
-                AtomicBool, AtomicI16, AtomicI32, AtomicI64, AtomicI8, AtomicIsize, AtomicPtr, AtomicU16, AtomicU32,
-                AtomicU64, AtomicU8, AtomicUsize,
+                AtomicBool, AtomicI16, AtomicI32, AtomicI64, AtomicI8, AtomicIsize, AtomicPtr,
+                AtomicU16, AtomicU32, AtomicU64, AtomicU8, AtomicUsize,
             };
         }
     }
